@@ -280,6 +280,14 @@ func genLimits(seed uint64, tier string) KScenario {
 				nz(limIDMaxData, 1000)
 			}
 		}
+		if sc.Reader == "slow" {
+			// windows of a few bytes mean one round trip per byte: nothing to learn, a lot to simulate
+			for _, id := range []uint64{limIDMaxData, limIDUni, limIDBidiLocal, limIDBidiRemote} {
+				if vals[id] >= 0 && vals[id] < 1000 {
+					vals[id] = 1200
+				}
+			}
+		}
 		for _, id := range limIDs {
 			// a dimension may also keep the value of the built-in list
 			if r.P(0.15) {
@@ -329,6 +337,14 @@ func genLimits(seed uint64, tier string) KScenario {
 		}
 		sc.Cfg.IdleMS[0] = rel(a(limIDIdle), 1500)
 	}
+	if sc.Reader == "slow" {
+		for i := 0; i < 2; i++ {
+			if sc.Cfg.Win[i] > 0 && sc.Cfg.Win[i] < 1000 {
+				sc.Cfg.Win[i] = 1000
+				sc.Cfg.MaxWin[i] = max(sc.Cfg.MaxWin[i], sc.Cfg.Win[i]) * uint64(min(1, sc.Cfg.MaxWin[i]))
+			}
+		}
+	}
 	sc.Cfg.Datagrams[0] = r.P(0.5)
 	sc.Cfg.Datagrams[1] = true
 	sc.Cfg.NoPMTUD = [2]bool{r.P(0.5), r.P(0.5)}
@@ -347,7 +363,7 @@ func genLimits(seed uint64, tier string) KScenario {
 	case "conn":
 		expect = a(limIDMaxData)
 	}
-	if expect > 3<<20 && !(tier == "thorough" && r.P(0.5)) && !r.P(0.25) {
+	if expect > 3<<20 && !(tier == "thorough" && r.P(0.5)) && !r.P(0.18) {
 		// keep the scenario, make the user windows the binding ones (default Config: the push ends at the Config window)
 		sc.Cfg.Win, sc.Cfg.MaxWin = [4]uint64{}, [4]uint64{}
 	}
@@ -655,11 +671,12 @@ func runLimits(t *testing.T, ksc KScenario, res *KResult) {
 	nodes.CQ.Tracer = func(ctx context.Context, isClient bool, _ quic.ConnectionID) qlogwriter.Trace { return trace }
 	// the server: datagrams on; its idle timeout never the binding one (the client's advertised value is)
 	specIdle := int64(0)
+	specIdlePresent := false
 	if q := wQTPExt(spec); q != nil {
 		for _, tp := range q.TransportParameters {
 			if tp.ID() == limIDIdle {
 				if v, _, err := tapVarint(tp.Value()); err == nil {
-					specIdle = int64(v)
+					specIdle, specIdlePresent = int64(v), true
 				}
 			}
 		}
@@ -669,6 +686,12 @@ func runLimits(t *testing.T, ksc KScenario, res *KResult) {
 		srvIdle = 45 * time.Second // the only advertised value: it is the effective one (RFC 9000 10.1)
 	}
 	nodes.SQ.MaxIdleTimeout = srvIdle
+	// the idle period the in-tree server really uses: min(own, peer's), the peer's value raised to 5 s - also when the peer
+	// sent an explicit 0 ("disabled", RFC 9000 18.2), which the in-tree parser turns into 5 s as well
+	srvEffIdle := srvIdle
+	if specIdlePresent {
+		srvEffIdle = min(srvIdle, max(time.Duration(specIdle)*time.Millisecond, 5*time.Second))
+	}
 	nodes.SQ.EnableDatagrams = true
 	w.StartDriver()
 	defer func() {
@@ -824,7 +847,9 @@ func runLimits(t *testing.T, ksc KScenario, res *KResult) {
 	// everything that is not a C12 matter goes to the common judge (C01/C02 liveness); here it only leaves a note
 	judgeOther := func(cause, scause error, handshake bool) {
 		pre := res.Violation
-		judgeFailure(w, &sc.Cfg, &sc.Net, len(sc.Faults), res, cause, scause, handshake, horizon)
+		jc := sc.Cfg // the idle periods the two endpoints really use
+		jc.IdleMS = [2]int64{int64(cfgIdle / time.Millisecond), int64(srvEffIdle / time.Millisecond)}
+		judgeFailure(w, &jc, &sc.Net, len(sc.Faults), res, cause, scause, handshake, horizon)
 		if res.Violation != pre && !on["C01"] && !on["C02"] && !on["all"] {
 			res.Note("C01: " + res.Violation)
 			res.Violation, res.Detail = "", ""
@@ -947,6 +972,7 @@ func runLimits(t *testing.T, ksc KScenario, res *KResult) {
 	settle := rtt + 80*time.Millisecond // delivery of the last packets + the client's reaction
 	clientDead := func() bool { return cconn.Context().Err() != nil || sconn.Context().Err() != nil }
 	// waitFor polls the wire until cond holds, an endpoint dies, or the server has made no progress for a while
+	capped := false
 	waitFor := func(cond func(limSnap) bool) bool {
 		until := time.Now().Add(deadline)
 		stall := time.Now()
@@ -959,7 +985,11 @@ func runLimits(t *testing.T, ksc KScenario, res *KResult) {
 			if progress := s.total + s.opened[0] + s.opened[1] + uint64(s.dgramFrames) + clientRead.Load(); progress != last {
 				last, stall = progress, time.Now()
 			}
-			if clientDead() || time.Now().After(until) || time.Since(stall) > stallLimit || ctx.Err() != nil {
+			if time.Now().After(until) || ctx.Err() != nil {
+				capped = true // still progressing, just slowly: no verdict
+				return false
+			}
+			if clientDead() || time.Since(stall) > stallLimit {
 				return false
 			}
 			time.Sleep(20 * time.Millisecond)
@@ -1068,7 +1098,8 @@ func runLimits(t *testing.T, ksc KScenario, res *KResult) {
 			res.Logf("sending %d bytes on stream %d to a reading client (stream window %d, connection window %d)", writeTotal, id, adv.streamWindow(id), adv.maxData)
 			reached = waitFor(func(limSnap) bool { return clientEOF.Load() && clientRead.Load() == writeTotal })
 			what = fmt.Sprintf("stream %d: %d of %d bytes sent, %d read by the client application", id, lw.snap().ends[id], writeTotal, clientRead.Load())
-			if !reached && !clientDead() && !sc.Faulty && len(sc.Faults) == 0 && ctx.Err() == nil {
+			if !reached && !capped && !sc.Faulty && len(sc.Faults) == 0 {
+				// no progress for a long time, or the connection idled out meanwhile
 				sig := limSigStall
 				if adv.streamWindow(id) < cfgStream || adv.maxData < cfgConn {
 					sig += limCfgStall
@@ -1234,8 +1265,12 @@ func runLimits(t *testing.T, ksc KScenario, res *KResult) {
 		if eff == 0 {
 			eff = uint64(srvIdle / time.Millisecond)
 		}
-		silence := time.Duration(eff) * time.Millisecond * 9 / 10
-		// silent for 90% of the advertised timeout, counted from the last datagram the server sent
+		// silent for 90% of the advertised timeout (and of what the server itself can bear), counted from the last
+		// datagram the server sent
+		silence := min(time.Duration(eff)*time.Millisecond, srvEffIdle) * 9 / 10
+		if specIdlePresent && specIdle == 0 {
+			res.Probe("idle-explicit-zero-server-uses-5s")
+		}
 		for !clientDead() {
 			target := time.Duration(lw.snap().lastSrvSend) + silence
 			now := time.Duration(w.NowNS())
@@ -1327,6 +1362,15 @@ func runLimits(t *testing.T, ksc KScenario, res *KResult) {
 		report("C04", limSigServerBeyond+strings.SplitN(snap.beyond, ":", 2)[0], "%s", snap.beyond)
 		spoken = true
 	}
+	isIdle := func(err error) bool {
+		var ie *quic.IdleTimeoutError
+		return err == nil || errors.As(err, &ie)
+	}
+	if !spoken && stalled != "" && isIdle(cause) && isIdle(scause) {
+		// the transfer came to a halt (and the connection possibly idled out over it) although the application keeps reading
+		report("C12", stalled, "%s; client cause %v, server cause %v; advertised stream windows %d/%d/%d connection %d; client Config: stream window %d, connection window %d", what, cause, scause, adv.bidiLocal, adv.bidiRemote, adv.uni, adv.maxData, cfgStream, cfgConn)
+		spoken = true
+	}
 	if !spoken && (cause != nil || scause != nil) {
 		judgeOther(cause, scause, false)
 		spoken = true
@@ -1341,10 +1385,10 @@ func runLimits(t *testing.T, ksc KScenario, res *KResult) {
 			}
 		case !reachable:
 			res.Probe("not-applicable:" + sc.Push)
-		case stalled != "":
-			report("C12", stalled, "%s; client and server connections alive; advertised stream windows %d/%d/%d connection %d; client Config: stream window %d, connection window %d", what, adv.bidiLocal, adv.bidiRemote, adv.uni, adv.maxData, cfgStream, cfgConn)
+		case capped:
+			res.Probe("slow-progress-capped:" + sc.Push + sc.Reader)
 		case !sc.Faulty && len(sc.Faults) == 0:
-			report("C12", limSigReach+sc.Push, "%s; client and server connections alive", what)
+			report("C12", limSigReach+sc.Push+sc.Reader, "%s; client and server connections alive", what)
 		default:
 			res.Probe("boundary-not-reached-under-faults:" + sc.Push)
 		}
